@@ -3456,14 +3456,19 @@ class SFTPClientFile:
         data = b''
 
         if offset is not None:
-            if size is None or size < 0:
+            to_eof = size is None or size < 0
+
+            if to_eof:
                 size = max((await self._end()) - offset, 0)
 
             try:
-                if self.read_len and size > \
-                        min(self.read_len, self._handler.limits.max_read_len):
+                # A read to EOF always goes through the parallel reader,
+                # which continues after short reads
+                if to_eof or (self.read_len and size >
+                        min(self.read_len, self._handler.limits.max_read_len)):
                     data = await _SFTPFileReader(
-                        self.read_len, self._max_requests, self._handler,
+                        self.read_len or self._handler.limits.max_read_len,
+                        self._max_requests, self._handler,
                         self._handle, offset, size).run()
                 else:
                     data, _ = await self._handler.read(self._handle,
